@@ -32,6 +32,15 @@ def run(tier, seed):
         os.remove(os.path.join(common.SPECS, "network", cfgname))
     if not m.ok:
         raise common.ToolError("Mux.tla invariants fail on the specification:\n" + m.out[-1500:])
+    # buffering clause: MuxBuffer.tla (permits before bytes) -> the exact amount a non-reading application lets the multiplexer pull
+    mb = common.tlc("network", "MC_MuxBuffer", cfg="MC_MuxBuffer.cfg", workers=1, timeout=900)
+    if not mb.ok:
+        raise common.ToolError("MuxBuffer.tla properties fail on the specification:\n" + mb.out[-1500:])
+    mb_cases = mb.printed("CASE")
+    if len(mb_cases) < 6:
+        raise common.ToolError("MuxBuffer.tla printed no blocked states")
+    mbp = os.path.join(d, "muxbuffer_cases.ndjson")
+    common.write_ndjson(mbp, mb_cases)
     nseeds = 8 if tier == "quick" else 60
     traces, streams, samples, viol = 0, 0, [], 0
     try:
@@ -39,7 +48,7 @@ def run(tier, seed):
             s = seed * 100 + k
             trace = os.path.join(d, f"t_{s}.ndjson")
             rep = os.path.join(d, f"r_{s}.json")
-            rc, so, se = common.run_bin("mux_drv", [trace, rep, s], timeout=600)
+            rc, so, se = common.run_bin("mux_drv", [trace, rep, s] + ([mbp] if k % 4 == 0 else []), timeout=600)
             if rc != 0 and not os.path.exists(rep):
                 raise common.ToolError("mux_drv failed: " + se[-800:])
             r = common.load_report(rep)
@@ -62,7 +71,9 @@ def run(tier, seed):
                "evaluations": streams, "distinct_nontrivial": traces,
                "rule": "model: BFS of Mux.tla (one reusable stream, 2-3 incarnations, 2 data frames each way); code: per seed one run with random limits in 1..3 per "
                        "capability and side, 3 capabilities, 12 client tasks x 6 streams with message sizes around the frame size, seeded fragmentation of the "
-                       "transport; evaluations = transient streams paired by TLC; plus one flood scenario per seed",
+                       "transport; evaluations = transient streams paired by TLC; plus one flood scenario per seed; "
+                       f"MuxBuffer.tla ({mb.distinct} states, Bounded + AllPulled): {len(mb_cases)} flood scenarios of a raw peer against a non-reading application, bytes pulled "
+                       "from the transport compared with the specification's blocked state (exact)",
                "exhaustive": True}
         common.write_evidence(PROP, tier, seed, "model_checking", cov,
                               ["thread interleavings of the real runtime are perturbed (fragmentation, Pending), not controlled",
@@ -79,7 +90,10 @@ def replay(path, seed):
     d = common.outdir(PROP)
     trace = os.path.join(d, "replay.ndjson")
     rep = os.path.join(d, "replay.json")
-    common.run_bin("mux_drv", [trace, rep, c["seed"]])
+    mb = common.tlc("network", "MC_MuxBuffer", cfg="MC_MuxBuffer.cfg", workers=1, timeout=900)
+    mbp = os.path.join(d, "muxbuffer_cases.ndjson")
+    common.write_ndjson(mbp, mb.printed("CASE"))
+    common.run_bin("mux_drv", [trace, rep, c["seed"], mbp])
     r = common.load_report(rep)
     common.handle_failures(PROP, r["failures"], "replay_failure")
     verdict, n = _validate(trace)
